@@ -13,18 +13,20 @@ EXTENDS Naturals, Sequences, FiniteSets, TLC, Json
 
 CONSTANTS Grammar,       \* [parent item kind -> set of child item kinds] ("root" is the document)
           MaxItems, MaxDepth,
-          DevHrAnywhere  \* as-built before the fix: a thematic break is a transition wherever it occurs
+          DevHrAnywhere, \* as-built before the fix: a thematic break is a transition wherever it occurs
+          DevAltTextOnly \* as-built before the fix: an image's alt text keeps only "text" tokens (inline code, escapes, breaks lost)
 
 (* ---------------------------------------------------------------- items -> events ---- *)
 Ev(e, k, t, a) == [e |-> e, k |-> k, t |-> t, a |-> a]
 Txt(n) == "x" \o ToString(n)
 ContainerItems == {"blockquote", "bullet_list", "ordered_list", "list_item", "ipara", "iheading1", "iheading2",
-                   "em", "strong", "link", "s", "dl", "dt", "dd"}
+                   "em", "strong", "link", "s", "dl", "dt", "dd", "img"}
 OpenEvents(k, n) ==
   CASE k = "ipara" -> <<Ev("open", "paragraph", "", ""), Ev("open", "inline", "", "")>>
     [] k = "iheading1" -> <<Ev("open", "heading", "", "1"), Ev("open", "inline", "", "")>>
     [] k = "iheading2" -> <<Ev("open", "heading", "", "2"), Ev("open", "inline", "", "")>>
     [] k = "link" -> <<Ev("open", "link", "", "http://e.x/" \o ToString(n))>>
+    [] k = "img" -> <<Ev("open", "image", "", "i" \o ToString(n) \o ".png")>>            \* an image whose label is generated
     [] k = "bullet_list" -> <<Ev("open", "bullet_list", "", "-")>>
     [] k = "ordered_list" -> <<Ev("open", "ordered_list", "", "arabic|.|")>>
     [] k \in {"dt", "dd"} -> <<Ev("open", k, "", "")>> \o (IF k = "dt" THEN <<Ev("open", "inline", "", "")>> ELSE <<>>)
@@ -33,6 +35,7 @@ CloseEvents(k) ==
   CASE k = "ipara" -> <<Ev("close", "inline", "", ""), Ev("close", "paragraph", "", "")>>
     [] k \in {"iheading1", "iheading2"} -> <<Ev("close", "inline", "", ""), Ev("close", "heading", "", "")>>
     [] k = "dt" -> <<Ev("close", "inline", "", ""), Ev("close", "dt", "", "")>>
+    [] k = "img" -> <<Ev("close", "image", "", "")>>
     [] OTHER -> <<Ev("close", k, "", "")>>
 Para(n) == <<Ev("open", "paragraph", "", ""), Ev("open", "inline", "", ""), Ev("leaf", "text", Txt(n), ""),
              Ev("close", "inline", "", ""), Ev("close", "paragraph", "", "")>>
@@ -62,7 +65,7 @@ LeafEvents(k, n) ==
     [] k = "code_inline" -> <<Ev("leaf", "code_inline", Txt(n), "")>>
     [] k = "softbreak" -> <<Ev("leaf", "softbreak", "", "")>>
     [] k = "hardbreak" -> <<Ev("leaf", "hardbreak", "", "")>>
-    [] k = "image" -> <<Ev("leaf", "image", "", "i" \o ToString(n) \o ".png|" \o Txt(n))>>
+    [] k = "image" -> <<Ev("open", "image", "", "i" \o ToString(n) \o ".png"), Ev("leaf", "text", Txt(n), ""), Ev("close", "image", "", "")>>
     [] k = "html_inline" -> <<Ev("leaf", "html_inline", "<b>", "")>>
     [] k = "math_inline" -> <<Ev("leaf", "math_inline", Txt(n), "")>>
     [] OTHER -> <<Ev("leaf", k, Txt(n), "")>>
@@ -133,6 +136,23 @@ RECURSIVE CountTh(_, _)
 CountTh(p, n) == IF p > Len(ev) \/ (ev[p].e = "close" /\ ev[p].k = "tr") THEN n
                  ELSE CountTh(p + 1, IF ev[p].e = "open" /\ ev[p].k = "th" THEN n + 1 ELSE n)
 
+(* the close event that matches the open event at p *)
+RECURSIVE MatchFrom(_, _)
+MatchFrom(q, d) == IF ev[q].e = "open" THEN MatchFrom(q + 1, d + 1)
+                   ELSE IF ev[q].e = "close" THEN (IF d = 1 THEN q ELSE MatchFrom(q + 1, d - 1))
+                   ELSE MatchFrom(q + 1, d)
+Match(p) == MatchFrom(p, 0)
+(* renderInlineAsText over the sibling tokens p .. q-1 (the label of an image): text, inline code and *)
+(* decoded escapes contribute their content, line breaks a newline, every other token its children   *)
+RECURSIVE AltKids(_, _)
+AltKids(p, q) ==
+  IF p >= q THEN ""
+  ELSE LET E == ev[p] IN
+       IF E.e = "open" THEN AltKids(p + 1, Match(p)) \o AltKids(Match(p) + 1, q)
+       ELSE (IF E.k = "text" \/ (~DevAltTextOnly /\ E.k \in {"code_inline", "text_special"}) THEN E.t
+             ELSE IF ~DevAltTextOnly /\ E.k \in {"softbreak", "hardbreak"} THEN "\n" ELSE "")
+            \o AltKids(p + 1, q)
+
 Push(restore) == ctx' = Append(ctx, restore)
 Set(r) == nodes' = r[1] /\ kids' = r[2] /\ par' = r[3]
 
@@ -141,6 +161,8 @@ Step ==
   /\ LET E == ev[pos] IN
      CASE E.e = "open" /\ E.k = "inline" ->                      \* render_inline: transparent
             Push(cur) /\ UNCHANGED <<nodes, kids, par, cur, lvl>>
+       [] E.e = "open" /\ E.k = "image" ->                      \* render_image: one node; the label tokens only feed the alt text
+            Set(AddChain(nodes, kids, par, cur, <<N("image", "", E.a \o "|" \o AltKids(pos + 1, Match(pos)))>>)) /\ UNCHANGED <<cur, ctx, lvl>>
        [] E.e = "open" /\ E.k \in DOMAIN SimpleMap ->
             LET r == AddChain(nodes, kids, par, cur, <<N(SimpleMap[E.k], "", E.a)>>) IN
             Set(r) /\ Push(cur) /\ cur' = Len(r[1]) /\ UNCHANGED lvl
@@ -196,7 +218,6 @@ Step ==
        [] E.e = "leaf" ->
             LET nd == CASE E.k = "code_inline" -> N("literal", E.t, "")
                         [] E.k \in {"code_block", "fence"} -> N("literal_block", E.t, E.a)
-                        [] E.k = "image" -> N("image", "", E.a)
                         [] E.k \in {"html_block", "html_inline"} -> N("raw", E.t, "html")
                         [] E.k \in {"math_inline", "math_single"} -> N("math", E.t, "")
                         [] E.k \in {"math_block", "math_inline_double"} -> N("math_block", E.t, "")
@@ -204,7 +225,7 @@ Step ==
                         [] E.k \in {"myst_line_comment", "myst_block_break"} -> N("comment", E.t, "")
                         [] OTHER -> N("?" \o E.k, E.t, E.a)
             IN Set(AddChain(nodes, kids, par, cur, <<nd>>)) /\ UNCHANGED <<cur, ctx, lvl>>
-  /\ pos' = pos + 1
+  /\ pos' = IF ev[pos].e = "open" /\ ev[pos].k = "image" THEN Match(pos) + 1 ELSE pos + 1
   /\ UNCHANGED <<phase, ev, gstack, items, lastleaf>>
 Finish == /\ phase = "render" /\ pos > Len(ev) /\ phase' = "done"
           /\ UNCHANGED <<ev, gstack, items, lastleaf, pos, nodes, kids, par, cur, ctx, lvl>>
@@ -221,6 +242,11 @@ Walk(id) == LET RECURSIVE Cat(_)
             IN Cat(kids[id])
 IsLeafNode(id) == kids[id] = <<>> /\ nodes[id].k \notin {"colspec"}
 DocLeaves == SelectSeq(Walk(0), IsLeafNode)
+(* the plain text of an image label: the text-bearing leaves between p and q, in source order *)
+AltS(p, q) == LET idx == SelectSeq([j \in 1..(q - p - 1) |-> p + j], LAMBDA j : ev[j].e = "leaf" /\ ev[j].k \in {"text", "code_inline", "text_special", "softbreak", "hardbreak"})
+                  RECURSIVE Cat(_)
+                  Cat(sq) == IF sq = <<>> THEN "" ELSE (IF ev[Head(sq)].k \in {"softbreak", "hardbreak"} THEN "\n" ELSE ev[Head(sq)].t) \o Cat(Tail(sq))
+              IN Cat(idx)
 (* the image of the token leaves: what must appear, exactly once, in source order *)
 RECURSIVE TokLeaves(_, _)
 TokLeaves(p, acc) ==
@@ -229,7 +255,8 @@ TokLeaves(p, acc) ==
            merge == E.e = "leaf" /\ E.k \in {"text", "softbreak"} /\ acc # <<>> /\ acc[Len(acc)][1] = "#text"
                     /\ p > 1 /\ ev[p - 1].e = "leaf" /\ ev[p - 1].k \in {"text", "softbreak"}
            t == IF E.k = "softbreak" THEN "\n" ELSE E.t
-       IN IF E.e = "open" /\ E.k = "s" THEN TokLeaves(p + 1, Append(acc, <<"raw", "<s>">>))
+       IN IF E.e = "open" /\ E.k = "image" THEN TokLeaves(Match(p) + 1, Append(acc, <<"image", E.a \o "|" \o AltS(p, Match(p))>>))
+          ELSE IF E.e = "open" /\ E.k = "s" THEN TokLeaves(p + 1, Append(acc, <<"raw", "<s>">>))
           ELSE IF E.e = "close" /\ E.k = "s" THEN TokLeaves(p + 1, Append(acc, <<"raw", "</s>">>))
           ELSE IF E.e # "leaf" THEN TokLeaves(p + 1, acc)
           ELSE IF merge THEN TokLeaves(p + 1, [acc EXCEPT ![Len(acc)] = <<"#text", @[2] \o t>>])
@@ -238,7 +265,6 @@ TokLeaves(p, acc) ==
           ELSE IF E.k = "hr" THEN TokLeaves(p + 1, Append(acc, <<"hr", "">>))
           ELSE IF E.k = "code_inline" THEN TokLeaves(p + 1, Append(acc, <<"literal", E.t>>))
           ELSE IF E.k \in {"code_block", "fence"} THEN TokLeaves(p + 1, Append(acc, <<"literal_block", E.t>>))
-          ELSE IF E.k = "image" THEN TokLeaves(p + 1, Append(acc, <<"image", E.a>>))
           ELSE IF E.k \in {"html_block", "html_inline"} THEN TokLeaves(p + 1, Append(acc, <<"raw", E.t>>))
           ELSE IF E.k \in {"math_inline", "math_single"} THEN TokLeaves(p + 1, Append(acc, <<"math", E.t>>))
           ELSE TokLeaves(p + 1, Append(acc, <<E.k, E.t>>))
@@ -271,7 +297,8 @@ TokPaths(p, stack, acc) ==
   ELSE LET E == ev[p]
            flat == LET RECURSIVE F(_)
                        F(s) == IF s = <<>> THEN <<>> ELSE Head(s) \o F(Tail(s)) IN F(stack)
-       IN IF E.e = "open" THEN TokPaths(p + 1, Append(stack, KindImg(E.k, E.a)),
+       IN IF E.e = "open" /\ E.k = "image" THEN TokPaths(Match(p) + 1, stack, Append(acc, flat))
+          ELSE IF E.e = "open" THEN TokPaths(p + 1, Append(stack, KindImg(E.k, E.a)),
                                         IF E.k = "s" THEN Append(acc, flat) ELSE acc)
           ELSE IF E.e = "close" THEN TokPaths(p + 1, SubSeq(stack, 1, Len(stack) - 1),
                                               IF E.k = "s" THEN Append(acc, LET st == SubSeq(stack, 1, Len(stack) - 1)
